@@ -92,6 +92,21 @@ def run(ctx, impl_only=False):
                 reqs.append(({'t1': repr(v), 't2': repr(w), 'zip': z, 'thr': thr, 'verbose': vb}, v, w, z, thr, True, vb))
         if len(ctx.samples) < 5:
             ctx.sample({'t1': repr(v)[:120], 'neighbour': repr(neigh[0])[:120]})
+    # ---- pairs that share objects (t2 inside t1, shallow copies, one list at several positions): same verdicts as for deep copies
+    for (v, w) in FAM.alias_pairs(ctx, 60 if ctx.thorough() else 15):
+        for cfg in [ctx.rng.choice(CFGS) for _ in range(2)]:
+            ctx.evaluations += 1
+            case = {'t1': repr(v), 't2': repr(w), 'cfg': cfg, 'clause': 'shared objects'}
+            try:
+                d = DeepDiff(v, w, **cfg)
+                d2 = DeepDiff(copy.deepcopy(v), copy.deepcopy(w), **cfg)
+            except Exception as e:
+                ctx.count('raised:' + type(e).__name__); continue
+            ctx.count('shared_objects')
+            if not d and not (v == w):
+                ctx.violate(case, 'empty diff although t1 != t2 (t1 and t2 share objects)')
+            if bool(d) != bool(d2):
+                ctx.violate(case, 'sharing objects between / inside the inputs changes the verdict')
     if not impl_only:
         FAM.compare_with_model(ctx, reqs)
     wit = {'F5e': lambda: bool(DeepDiff({'NONE'}, {None}))}
